@@ -346,6 +346,10 @@ pub fn process<I: BufRead, O: Write>(
                                 remaining = "";
                             } else {
                                 insert_it = true;
+                                // A comment separates tokens like a blank does
+                                if !uncommented_buf.is_empty() {
+                                    uncommented_buf.push(' ');
+                                }
                             }
                         }
                     }
